@@ -27,7 +27,7 @@ def run(ctx):
     drv = common.LeanDriver()
     reqs, metas = [], []
     # ---- subsample
-    for _ in range(ctx.scale(500, 10000)):
+    for _ in range(ctx.scale(2000, 20000)):
         r = ctx.rng
         times = grid(r, r.randint(1, 12), r.choice([0, 0.2, 0.5]))
         kind = r.random()
@@ -53,7 +53,7 @@ def run(ctx):
         reqs.append(dict(op="subsample", report=rep["report"], times=rep["times"], series=series))
         metas.append(("subsample", rep, impl))
     # ---- time shift
-    for _ in range(ctx.scale(200, 4000)):
+    for _ in range(ctx.scale(600, 6000)):
         r = ctx.rng
         times = grid(r, r.randint(1, 10), 0.1)
         L = [F(r.randrange(0, 12), 2) for _ in times]
@@ -68,7 +68,7 @@ def run(ctx):
         reqs.append(dict(op="timeshift", times=rep["times"], L=rep["L"], thr=rep["thr"]))
         metas.append(("timeshift", rep, impl))
     # ---- degree helpers
-    for _ in range(ctx.scale(60, 600)):
+    for _ in range(ctx.scale(150, 1000)):
         r = ctx.rng
         G = gen.random_graph(r, 1, 10)
         if G.number_of_edges() == 0 and r.random() < 0.7:
